@@ -40,17 +40,17 @@ ASSUMPTIONS = [
 
 SPACES = {
     "quick": [
-        ("all5,S3+D4,L<=2", pg.LEAVES, ("S3", "D4"), 2),
-        ("X,E,G,S3,L<=3", ("X", "E", "G"), ("S3",), 3),
-        ("E,G,B,S3,L<=3", ("E", "G", "B"), ("S3",), 3),
-        ("X,B,S3,L<=3", ("X", "B"), ("S3",), 3),
-        ("E,S3,L<=4", ("E",), ("S3",), 4),      # smallest alphabet at length 4: nested shared sub-trees
+        ("all5+S3+D4:L<=2", pg.LEAVES, ("S3", "D4"), 2),
+        ("XEG+S3:L<=3", ("X", "E", "G"), ("S3",), 3),
+        ("EGB+S3:L<=3", ("E", "G", "B"), ("S3",), 3),
+        ("XB+S3:L<=3", ("X", "B"), ("S3",), 3),
+        ("E+S3:L<=4", ("E",), ("S3",), 4),      # smallest alphabet at length 4: nested shared sub-trees
     ],
     "thorough": [
-        ("all5,S3+D4,L<=2", pg.LEAVES, ("S3", "D4"), 2),
-        ("all5,S3,L<=3", pg.LEAVES, ("S3",), 3),
-        ("E,G,S3,L<=4", ("E", "G"), ("S3",), 4),
-        ("E,B,S3,L<=4", ("E", "B"), ("S3",), 4),
+        ("all5+S3+D4:L<=2", pg.LEAVES, ("S3", "D4"), 2),
+        ("all5+S3:L<=3", pg.LEAVES, ("S3",), 3),
+        ("EG+S3:L<=4", ("E", "G"), ("S3",), 4),
+        ("EB+S3:L<=4", ("E", "B"), ("S3",), 4),
     ],
 }
 
@@ -64,7 +64,7 @@ def cases(tier, seed):
                 continue
             seen.add(canon)
             n += 1
-            out.append((ln, len(canon), canon, dict(L=alph, p=prog, e=canon, s=int(seed))))
+            out.append((ln, len(canon), canon, dict(L=alph, p=prog, e=canon, s=int(seed), g=label)))
         sizes[label] = n
     out.sort(key=lambda x: x[:3])
     cases.sizes = sizes
